@@ -393,4 +393,11 @@ theorem calcOutflow_ok (inflow lateral bias prevQi po prevStorage ner area dead 
     have := not_le.mp h2
     linarith [mbl_pos]
 
+
+/-- the prologue for zero bias and `m ≤ 1` -/
+theorem setup_zero_bias (bias k x dt : ℝ) (hb : |bias| < 0.001) (hx : x ≤ 1) : setup bias k x dt = ⟨0, x, k, 0, 0⟩ := by
+  unfold setup
+  simp only [RealNum.abs_eq, if_pos hb, z0, o1, if_neg (not_lt.mpr hx)]
+
+
 end OW.Proofs.StorageRouting
